@@ -146,7 +146,7 @@ private theorem core_equiv {reg : Reg} (hagree : CustomAgree reg) {recL : Ty →
     (vfaCore reg recL t l).toOption = (coerceCore reg recJ t j).toOption := by
   have hadmI : ∀ k, admits .int (.int k) = true := fun k => by simp only [admits, kindName, litKind]; decide
   have hadmFI : ∀ k, admits .float (.int k) = true := fun k => by simp only [admits, kindName, litKind]; decide
-  have hadmFF : ∀ s c, admits .float (.float s c) = true := fun s c => by simp only [admits, kindName, litKind]; decide
+  have hadmFF : ∀ s, admits .float (.float s) = true := fun s => by simp only [admits, kindName, litKind]; decide
   have hadmS : ∀ s, admits .string (.str s) = true := fun s => by simp only [admits, kindName, litKind]; decide
   have hadmB : ∀ b, admits .boolean (.bool b) = true := fun b => by simp only [admits, kindName, litKind]; decide
   have hadmIS : ∀ s, admits .id (.str s) = true := fun s => by simp only [admits, kindName, litKind]; decide
